@@ -39,6 +39,7 @@ MEdit ==
     \E id \in DOMAIN heap :
         \/ EditAppend(id) /\ edits' = Append(edits, [op |-> "append", id |-> id, pos |-> 0])
         \/ \E pos \in 0..2 : EditInsert(id, pos) /\ edits' = Append(edits, [op |-> "insert", id |-> id, pos |-> pos])
+        \/ EditReverse(id) /\ edits' = Append(edits, [op |-> "reverse", id |-> id, pos |-> 0])
 
 MNext ==
     \/ \E i \in 1..Len(Docs) : Pick(i)
